@@ -32,8 +32,10 @@ func allCells() []cellSpec {
 	out = append(out, pppoeCells()...)
 	out = append(out, teardownCells(false)...)
 	out = append(out, teardownCells(true)...)
+	out = append(out, teardownStaleCells()...)
 	out = append(out, submgrCells(false)...)
 	out = append(out, submgrCells(true)...)
+	out = append(out, submgrStaleCells()...)
 	return out
 }
 
@@ -72,9 +74,16 @@ func TestPropTeardown(t *testing.T) {
 func TestPropTeardownParked(t *testing.T) {
 	propRandom(t, "TestPropTeardownParked", teardownCells(true), 1200, 24000)
 }
+func TestPropTeardownStale(t *testing.T) {
+	propRandom(t, "TestPropTeardownStale", teardownStaleCells(), 600, 12000)
+}
 func TestPropSubMgr(t *testing.T) { propRandom(t, "TestPropSubMgr", submgrCells(false), 800, 16000) }
 func TestPropSubMgrParked(t *testing.T) {
 	propRandom(t, "TestPropSubMgrParked", submgrCells(true), 500, 10000)
+}
+
+func TestPropSubMgrStale(t *testing.T) {
+	propRandom(t, "TestPropSubMgrStale", submgrStaleCells(), 300, 6000)
 }
 
 // TestPropSweep enumerates the whole product deterministically: every cell is executed (quick: once, thorough:
